@@ -293,6 +293,6 @@ def run(ctx):
     sub = _Ctx(ctx.pid, ctx.tier)
     fbd = ctx.fb("default")
     c06.check_recompute(sub, fbd)
-    c06.check_complete_writes(sub, fbd)
+    c06.check_complete_writes(sub, fbd, flags=False)
     for r in sub.results:
         (ctx.ok if r.status == "ok" else ctx.fail)("R02-5", r.instance, r.reason, r.loc)
